@@ -258,13 +258,14 @@ def h_negative(code):
     return h
 
 
-def h_decode_total(code, n, pos, cname='ConstBitStream', via='read'):
+def h_decode_total(code, n, pos, cname='ConstBitStream', via='read', bytealigned=False):
     def h(K):
         import bitstring
         cls = classes()[cname]
         x = K.bits('x', n)
         s = mk(K, cls, x, pos)
         exp = REF_DEC[code](K, x, pos)
+        bitstring.options.bytealigned = bytealigned      # a codeword starts wherever the position is: the search option has no say (engine restores it)
         if via == 'read':
             r = call(lambda: s.read(code))
         elif via == 'readlist':
@@ -387,6 +388,8 @@ def conditions(tier):
             nn = 8 if q else 12
             for pos in ([0, 2] if q else [0, 1, 2, 5]):
                 add(f'C10.decode-total-{via}[{code},n={nn},pos={pos}]', h_decode_total(code, nn, pos, via=via), f'every {nn}-bit string, start position {pos}, through {via}', D_DEC, code=code, n=nn, pos=pos)
+        for pos in ([1] if q else [0, 1, 3, 8]):
+            add(f'C10.decode-total[{code},n={n},pos={pos},options.bytealigned]', h_decode_total(code, n, pos, bytealigned=True), f'every {n}-bit string, start position {pos}, options.bytealigned set', D_DEC, code=code, n=n, pos=pos)
         for m in ([0, 1, 5, 9] if q else list(range(0, 13))):
             add(f'C10.whole-value[{code},n={m}]', h_whole_value(code, m), f'every {m}-bit string interpreted through the whole-bitstring property', D_DEC, code=code, n=m)
     for code in ('ue', 'se'):
